@@ -130,6 +130,16 @@ def check_built(name, cls, op, point):
     m = bytes(cls.marshall_cdb(d))
     if m != cdb:
         out.append(("built_reencode/%s" % name, "%s: marshall_cdb(unmarshall_cdb(%s)) = %s" % (name, cdb.hex(), m.hex())))
+    # re-encoding through the command object itself, repeatedly: same fields -> same bytes, and the object's CDB stays what it was
+    for n in (1, 2):
+        try:
+            again = bytes(cmd.build_cdb(**d))
+        except Exception as e:   # noqa: BLE001
+            out.append(("rebuild_raises/%s" % name, "%s(%r).build_cdb(**decoded) raised %s: %s" % (name, point, type(e).__name__, e)))
+            break
+        if again != cdb:
+            out.append(("rebuild/%s" % name, "%s(%r): build_cdb #%d with the decoded fields gives %s, the command's CDB is %s" % (name, point, n + 1, again.hex(), cdb.hex())))
+            break
     return out
 
 
